@@ -11,14 +11,20 @@ def run(ctx):
                 "(recording brokerClass) and on the failure class the dialling end's caller got; hash-mismatch family: the decision's table hash "
                 "rewritten in flight for the configurations that offer table 1 x every other configuration x both tub-id orders, dialled by "
                 "the decider and by the non-decider in turn (at least 20 must reach the hash comparison) + the fixed witness of "
-                "C13_agreement_two_way_refuted; plus chunked and malformed-block runs; "
+                "C13_agreement_two_way_refuted; table-contents family: each end holds its OWN foolscap.vocab state (tables 0..2, the "
+                "module's dicts switched per receiving end) and changes it BETWEEN negotiations of a history (extend in place, replace, "
+                "reorder, shorten, edit one word, put back; one end first, then the other follows) -- fixed histories x both tub-id orders, "
+                "judged on the WORDS each created Broker starts with (thorough: random histories and chunked delivery); "
+                "plus chunked and malformed-block runs; "
                 "damaged-line family: every 'key: value' line of every block of a recorded undamaged attempt x 7 ways of losing the "
                 "separator x both tub-id orders (fixed, no random choice), judged on the Brokers each end CREATES; the same blocks "
                 "and random headers against Negotiation.parseLines directly")
     ctx.assumptions = ["TLS is replaced by a no-op startTLS and peerFromTransport returns the peer Tub's certificate",
                        "vocab table hashes are computed by the same vocab.py on both sides (hash mismatch is exercised by "
-                       "rewriting the decision block in flight); sha1 itself is not modelled: the model carries the hash as a number and "
-                       "'matching contents' means equal hashes",
+                       "rewriting the decision block in flight AND by giving each end its own module state of foolscap.vocab, switched at "
+                       "delivery: negotiation touches the tables only inside dataReceived); sha1 itself is not modelled: the model "
+                       "carries the hash as a number and 'matching contents' means equal hashes (the table-contents oracle compares the "
+                       "words themselves; test tables that collide in the 16-bit hash are excluded by an assertion)",
                        "a Python str is modelled by its UTF-8 bytes; str.lower() is modelled on ASCII keys (every key the package writes is an "
                        "ASCII literal); int() and str.split() are modelled for ASCII text (the model abstains on other text, counted in "
                        "wire_model_abstains_non_ascii)",
@@ -30,6 +36,8 @@ def run(ctx):
     failures_before = len(ctx.failures)
     # 1. implementation sweep + direct oracle
     cases = impl.sweep(ctx)
+    # 1b. two ends that really HOLD different / changing tables (each end its own foolscap.vocab state), histories of negotiations
+    cases += impl.table_contents(ctx)
     # 2. correspondence with the Coq model (needs at least the model files to build)
     model_ok = True
     wire_ok = ok
@@ -71,10 +79,13 @@ def tail(s, n=2500):
     return s[-n:]
 
 
-def ep(idn, r, tamper=None):
+def ep(idn, r, tamper=None, hashes=None):
     # ids: "a" < "b" as code points
     accept = "(fun v => (1 <=? v) && (v <=? 3))%Z"
     h = "(fun i => i * 7)%Z" if tamper != "hash" else "(fun i => i * 7 + 1)%Z"
+    if hashes is not None:
+        # the end's own tables (table-contents family): the number the published algorithm gives for the contents of each
+        h = "(fun i => %s0)%%Z" % "".join("if i =? %d then %d else " % (i, x) for i, x in sorted(hashes.items()))
     return "(Build_endpoint [%d%%Z] %s %s %s %s %s %s)" % (idn, coq_Z(r[0]), coq_Z(r[1]), coq_Z(r[2]), coq_Z(r[3]), h, accept)
 
 
@@ -88,7 +99,8 @@ def correspond(ctx, cases):
         # tamper 'hash': the master's hash differs from the slave's (decision rewritten in flight)
         ta = c["tamper"] if c["a_high"] else None
         tb = c["tamper"] if not c["a_high"] else None
-        lines.append("(%s, %s)" % (ep(ia, c["ra"], ta), ep(ib, c["rb"], tb)))
+        ha, hb = c.get("hashes") or (None, None)
+        lines.append("(%s, %s)" % (ep(ia, c["ra"], ta, ha), ep(ib, c["rb"], tb, hb)))
     body = """
 Definition code (o : outcome) : list Z :=
   match o with Banana p => [1; p_version p; p_vocab p]%Z | Failed _ => [0]%Z | SwitchedThenLost p => [2; p_version p; p_vocab p]%Z end.
@@ -124,8 +136,8 @@ Eval vm_compute in map (fun c => let '(oa, ob) := negotiate (fst c) (snd c) in (
                 ctx.fail("correspondence/negotiate", "model and implementation disagree on %r: model %r/%r (caller's end: %r), implementation "
                          "%r/%r (caller got %r) [0 = abandoned without a Broker, 1 v t = switched, 2 v t = switched and then lost the "
                          "connection; caller: 0 call returned, 1 NegotiationError, 2 RemoteNegotiationError, 3 lost connection]"
-                         % ({k: c[k] for k in ("ra", "rb", "a_high", "tamper")}, ma, mb, mtag, ia, ib, got),
-                         replay=dict(case={k: c[k] for k in ("ra", "rb", "a_high", "tamper")}, model=[ma, mb, mtag], impl=[ia, ib, got]),
+                         % ({k: c[k] for k in ("ra", "rb", "a_high", "tamper", "history", "step") if k in c}, ma, mb, mtag, ia, ib, got),
+                         replay=dict(case={k: c[k] for k in ("ra", "rb", "a_high", "tamper", "history", "step") if k in c}, model=[ma, mb, mtag], impl=[ia, ib, got]),
                          has_input=False)
     ctx.extra["correspondence_cases"] = len(cases)
     ctx.extra["correspondence_disagreements"] = nbad
@@ -178,9 +190,9 @@ def correspond_phases(ctx, cases):
             nbad += 1
             if nbad <= 3:
                 ctx.fail("correspondence/phases", "phase machine and Negotiation object disagree for %r (%s, %s): model [recv, send, switched] = %r, "
-                         "implementation %r" % ({k: c[k] for k in ("ra", "rb", "a_high", "tamper")}, "client" if is_client else "server",
+                         "implementation %r" % ({k: c[k] for k in ("ra", "rb", "a_high", "tamper", "history", "step") if k in c}, "client" if is_client else "server",
                                                 "decider" if master else "non-decider", m, obs),
-                         replay=dict(case={k: c[k] for k in ("ra", "rb", "a_high", "tamper")}), has_input=False)
+                         replay=dict(case={k: c[k] for k in ("ra", "rb", "a_high", "tamper", "history", "step") if k in c}), has_input=False)
     ctx.extra["phase_cases"] = len(meta)
     ctx.extra["phase_disagreements"] = nbad
 
@@ -281,6 +293,15 @@ def replay(ctx, data):
                 print("chunks", cs[:20], "->", [x if not isinstance(x, list) else len(x) for x in impl.split_trace(bytes(rp["stream"]), cs, rp["k"])])
             ctx.case(["split-replay"])
             scases = impl.splitter(ctx)
+        elif "history" in cfg:
+            H = impl.table_histories()
+            name = cfg["history"].split("/chunked")[0]
+            if name not in H:
+                print("note: a random history is not stored by name; running the fixed table-contents histories")
+            for nm in ([name] if name in H else sorted(H)):
+                for dial0 in "ab":
+                    for c in impl.run_history(ctx, nm, H[nm], bool(cfg.get("a_high")), dial0):
+                        print(nm, "dial0", dial0, "step", c["step"], "tables differ" if c["tamper"] else "tables equal / none", "->", c["obs"], c["caller"])
         elif "ra" in cfg:
             cfg = dict(cfg, ra=tuple(cfg["ra"]), rb=tuple(cfg["rb"]))
             dial = cfg.get("dial") or ("a" if (rp.get("dialer", "decider") == "decider") == bool(cfg["a_high"]) else "b")
